@@ -813,7 +813,8 @@ pub fn run_c15(ctx: &Ctx) -> i32 {
                 let nblocks = rng.usize_below(4);
                 for _ in 0..nblocks {
                     let tag = rng.urange(1, 126) as u8;
-                    let len = *rng.pick(&[0usize, 1, 4, 33, 1000]);
+                    // mostly small; one block in eight is at or beyond the 16-bit length boundary
+                    let len = if rng.chance(1, 8) { *rng.pick(&[65_535usize, 65_536, 65_537, 70_000, 131_072, 300_000]) } else { *rng.pick(&[0usize, 1, 4, 33, 255, 256, 1000]) };
                     let data: Vec<u8> = (0..len).map(|_| rng.next_u64() as u8).collect();
                     stream.add_metadata_block(MetadataBlockData::new_unknown(tag, &data).unwrap());
                 }
@@ -835,9 +836,68 @@ pub fn run_c15(ctx: &Ctx) -> i32 {
             Err(e) => report_obs_err(ctx, "metadata", idx, &case, &ObsErr::Enc(e), out),
         }
     });
+    // single frames at every length class of the coded frame number (and random numbers): encode
+    // through the frame-level entry point, serialise, parse alone, verify, re-serialise, decode
+    let mut numbers: Vec<u64> = vec![0, 1];
+    for k in [7u32, 11, 16, 21, 26, 31] {
+        let b = 1u64 << k;
+        for d in [-2i64, -1, 0, 1, 2] {
+            let v = b as i64 + d;
+            if (0..(1i64 << 31)).contains(&v) {
+                numbers.push(v as u64);
+            }
+        }
+    }
+    let numbers = Arc::new(numbers);
+    let nn = numbers.len() as u64 + ctx.tier.pick(2000, 100_000);
+    let nums = Arc::clone(&numbers);
+    run_cases(ctx, "framenum", nn, &mut out, |idx, out| {
+        use flacenc::component::{BitRepr, Decode};
+        use flacenc::error::Verify;
+        let mut rng = Rng::for_case(ctx.seed, "C15.framenum", idx);
+        let num = if (idx as usize) < nums.len() { nums[idx as usize] } else { rng.next_u64() >> rng.urange(33, 63) } as usize;
+        let channels = *rng.pick(&[1usize, 2, 2, 3]);
+        let bps = *rng.pick(&gen::WIDTHS);
+        let n = *rng.pick(&[32usize, 64, 100, 192]);
+        let a = gen::gen_audio(&mut rng, channels, bps, 44100, n);
+        let cfg = gen::gen_config(&mut rng, &ConfigOpts { multithread: Some(false), min_max_parameter: 6 });
+        let Ok(v) = enc::verified(&cfg) else { return };
+        let rp = || json!({"monitor": "C15", "sub": "framenum", "index": idx, "seed": ctx.seed, "tier": ctx.tier.name(), "case": {"frame_number": num, "channels": channels, "bps": bps, "n": n, "signal": a.recipe}});
+        let r = crate::common::catch(|| -> Result<(), String> {
+            let si = flacenc::component::StreamInfo::new(44100, channels, bps).map_err(|e| format!("{e}"))?;
+            let mut fb = flacenc::source::FrameBuf::with_size(channels, n).map_err(|e| format!("{e}"))?;
+            flacenc::source::Fill::fill_interleaved(&mut fb, &a.samples).map_err(|e| format!("{e}"))?;
+            let f = flacenc::encode_fixed_size_frame(&v, &fb, num, &si).map_err(|e| format!("encode: {e}"))?;
+            let bytes = enc::to_bytes(&f).map_err(|e| format!("{e:?}"))?;
+            type NomErr<'a> = nom::error::Error<&'a [u8]>;
+            let mut p = flacenc::component::parser::frame::<NomErr<'_>>(&si, true);
+            let (rest, f2) = p(&bytes).map_err(|e| format!("parser::frame rejects the frame: {}", format!("{e:?}").chars().take(120).collect::<String>()))?;
+            if !rest.is_empty() {
+                return Err(format!("{} bytes left unconsumed", rest.len()));
+            }
+            f2.verify().map_err(|e| format!("parsed frame does not verify: {e}"))?;
+            let b2 = enc::to_bytes(&f2).map_err(|e| format!("{e:?}"))?;
+            if b2 != bytes {
+                return Err("re-serialised frame differs".into());
+            }
+            if f2.decode() != a.samples {
+                return Err("Decode of the parsed frame differs from the input".into());
+            }
+            let _ = f.count_bits();
+            Ok(())
+        });
+        out.evaluations += 1;
+        out.distinct.insert(crate::prng::mix(num as u64) ^ 0xF15);
+        out.count(&format!("framenum_bits_{}", 64 - (num as u64).leading_zeros()));
+        match r {
+            Ok(Ok(())) => {}
+            Ok(Err(e)) => out.violation(format!("C15|framenum|{}", e.split(':').next().unwrap_or("?").chars().take(40).collect::<String>()), format!("frame number {num}: {e}"), rp()),
+            Err(p) => out.violation(format!("C15|framenum-panic|{}", p.site()), p.short(), rp()),
+        }
+    });
     let fin = Finish {
         level: "exploration",
-        rule: "for every emitted stream: parser::stream consumes all bytes, the tree verifies, re-serialises to identical bytes and Decode returns the input; the first frames are also parsed alone with parser::frame; 'metadata' adds 0-3 unknown metadata blocks and includes the empty stream; distinct by case hash",
+        rule: "for every emitted stream: parser::stream consumes all bytes, the tree verifies, re-serialises to identical bytes and Decode returns the input; the first frames are also parsed alone with parser::frame; the first frames' subframes are parsed alone with parser::subframe at their channel's width; 'metadata' adds 0-3 unknown metadata blocks (lengths 0..1000, one in eight at 65535..300000 bytes) and includes the empty stream; 'framenum' round-trips single frames at every length class of the coded frame number (2^7, 2^11, 2^16, 2^21, 2^26, 2^31 each -2..+2) and random 1..31-bit numbers; distinct by case hash",
         assumptions: vec![],
         exhaustive: None,
         floors: vec![],
